@@ -44,8 +44,8 @@ func newPivotRootFromLog(log map[string]string) Rule {
 	return &PivotRoot{
 		Base:          newBaseFromLog(log),
 		Qualifier:     newQualifierFromLog(log),
-		OldRoot:       log["srcname"],
-		NewRoot:       log["name"],
+		OldRoot:       quoteAARE(log["srcname"]),
+		NewRoot:       quoteAARE(log["name"]),
 		TargetProfile: "",
 	}
 }
